@@ -280,7 +280,7 @@ pub fn valid_answer(offer: &SessionDescription, ans: &SessionDescription, renego
             Direction::RecvOnly => matches!(a.direction, Direction::SendOnly | Direction::Inactive),
             Direction::Inactive => a.direction == Direction::Inactive,
         };
-        if !dir_ok { v.di = false; v.fails.push((format!("ans:direction:{}-answered-{}:{ms}", dir_s(o.direction), dir_s(a.direction)), format!("section {i}"))); }
+        if !dir_ok { v.di = false; v.fails.push((format!("ans:direction:{ms}"), format!("section {i}: offered {}, answered {}", dir_s(o.direction), dir_s(a.direction)))); }
         if let Some(su) = vals(a, "setup").first() {
             let os = vals(o, "setup").first().copied();
             let ok = *su != "actpass" && match os { Some("active") => *su == "passive", Some("passive") => *su == "active", _ => *su == "active" || *su == "passive" };
